@@ -137,12 +137,32 @@ func (d *driver) apply(s step, sc *Scenario) {
 		api := "TryLock"
 		if locker {
 			api = "Lock"
+			for _, x := range sc.Sched {
+				if x.A == "GiveUp" { // a caller that stops waiting: the blocking acquire with a (short) time limit
+					api = "LockWithShortTimeout"
+				}
+			}
 		}
 		if err := w.StartAPI(s.P, api); err != nil {
 			d.note("%v", err)
 			return
 		}
 		d.parked(s.P)
+	case "GiveUp":
+		// the polling contender stops waiting: its time limit (20 ms) elapses - or, for a plain Lock, its context is cancelled -
+		// and whatever it still does on its way out is let through
+		if w.Busy(s.P) == "LockWithShortTimeout" {
+			time.Sleep(30 * time.Millisecond)
+		} else {
+			w.GiveUp(s.P)
+		}
+		for i := 0; i < 200 && w.Busy(s.P) != ""; i++ {
+			c := d.parked(s.P)
+			if c == nil {
+				break
+			}
+			d.release(c)
+		}
 	case "Mkdir":
 		d.expectMut(s.P, "Mkdir", w.lockDir)
 	case "Stale1":
@@ -322,6 +342,9 @@ func random(a *hk.Args) error {
 				if w.Dead(p) {
 					continue
 				}
+				if b := w.Busy(p); (b == "Lock" || b == "LockWithTimeout") && rng.Intn(12) == 0 {
+					moves = append(moves, move{"giveup", p})
+				}
 				if w.Busy(p) == "" {
 					moves = append(moves, move{"api", p})
 				} else if w.Gate.Peek(p) != nil {
@@ -354,7 +377,7 @@ func random(a *hk.Args) error {
 						api = "Unlock"
 					}
 				} else {
-					api = []string{"TryLock", "TryLock", "Lock", "LockWithTimeout", "ReleaseIfStale"}[rng.Intn(5)]
+					api = []string{"TryLock", "TryLock", "Lock", "LockWithTimeout", "ReleaseIfStale", "LockWithShortTimeout"}[rng.Intn(6)]
 				}
 				if api == "" {
 					continue
@@ -366,6 +389,8 @@ func random(a *hk.Args) error {
 				if c := w.Gate.Peek(m.key); c != nil {
 					d.release(c)
 				}
+			case "giveup":
+				w.GiveUp(m.key)
 			case "tick":
 				w.Tick()
 				ticks++
